@@ -16,7 +16,7 @@ def _configs(tier):
     return out
 
 
-@harness("root_zone_water", modules=["aquacrop.solution.root_zone_water"], props=["C03", "C12", "C16", "C13"], configs=_configs,
+@harness("root_zone_water", modules=["aquacrop.solution.root_zone_water"], props=["C03", "C12", "C16", "C13"], configs=_configs, round_enum=64,
          goals=["partial-compartment"])
 def h_rzw(ctx, cfg):
     soil, base = build_profile(cfg["layers"], cfg["dzs"])
